@@ -1,12 +1,12 @@
 """C11 — linear elastic laws."""
 import os
-from tools.py2lean import gen_c11
+from tools.py2lean import gen_c10, gen_c11
 
-LEAN_TARGETS = ["EasyFEAVerif.Props.C11"]
-PROPS_MODULES = ["EasyFEAVerif.Props.C11"]
+LEAN_TARGETS = ["EasyFEAVerif.Props.C11", "EasyFEAVerif.Props.C10"]
+PROPS_MODULES = ["EasyFEAVerif.Props.C11", "EasyFEAVerif.Props.C10"]
 TRUSTED_EXTRA = [
     "C11: np.linalg.inv is external: the theorems exhibit the closed-form inverse (C * S = 1), which the code's inv must equal by uniqueness",
-    "C11: the change-of-basis matrix Get_Pmat / Apply_Pmat and the anisotropic law are validated by the harness (orthogonality, tensor rotation, Voigt vs Kelvin-Mandel), not proved",
+    "C11: the change-of-basis matrix Get_Pmat is translated (2D and 3D branches) and proved orthogonal and equal to the Kelvin-Mandel rotation of a symmetric tensor in Props.C10 (pmat2_checks, pmat3_checks, Pm3_rotation), built and audited by this check too; Apply_Pmat, the normalisation / batching of the axes and the anisotropic law are validated by the harness (tensor rotation, Voigt vs Kelvin-Mandel), not proved",
 ]
 ASSUMPTIONS = [
     "admissibility: E > 0, -1 < v < 1/2 (isotropic SPD); non-zero moduli and non-vanishing c_ij denominator (TI / orthotropic inverse)",
@@ -14,4 +14,5 @@ ASSUMPTIONS = [
 
 
 def generate(repo, lean_dir):
+    gen_c10.write(repo, os.path.join(lean_dir, "EasyFEAVerif", "Gen", "C10"))
     return gen_c11.write(repo, os.path.join(lean_dir, "EasyFEAVerif", "Gen", "C11"))
